@@ -1,35 +1,62 @@
-/* C18 replay: carquet_writer_close on a sink that accepts fwrite() into the stdio buffer and then
- * fails (ENOSPC) when the bytes are pushed out by fflush()/fclose().  Real /repo sources.
- * No input needed (the counterexample is "fflush/fclose report failure"); both writer flavours
- * are exercised:  owns = 1 -> path-based writer (the writer owns the FILE: fclose result matters),
- *                 owns = 0 -> carquet_writer_create_file on the caller's FILE (fflush result matters). */
+/* C18 replay: carquet_writer_close on failing sinks.  Real /repo sources, no verifier input needed
+ * (the counterexamples are "some stdio call on the sink reports failure"):
+ *  A. /dev/full: fwrite() succeeds into the stdio buffer, fflush()/fclose() fail with ENOSPC
+ *     owns = 1 -> path-based writer (fclose result matters), owns = 0 -> caller's FILE (fflush).
+ *  B. one-shot failure: an unbuffered fopencookie() sink whose k-th write call fails (returns 0)
+ *     and every other call succeeds, for every k; the writer must report non-OK from some call. */
+#define _GNU_SOURCE
 #include "cex.h"
 #include <carquet/carquet.h>
 #include <stdio.h>
-static int run(int owns) {
-  const char *path = "/dev/full";
+#include <sys/types.h>
+
+static long g_calls, g_fail_at, g_failed;
+static ssize_t sink_write(void *c, const char *buf, size_t n) {
+  (void)c; (void)buf;
+  if (g_calls++ == g_fail_at) { g_failed++; return 0; }
+  return (ssize_t)n;
+}
+static int sink_close(void *c) { (void)c; return 0; }
+
+static int run(int owns, FILE *f, const char *path) {
   carquet_error_t err; memset(&err, 0, sizeof err);
   carquet_schema_t *schema = carquet_schema_create(&err);
   CEX_ASSUME(schema != NULL);
   CEX_ASSUME(carquet_schema_add_column(schema, "id", CARQUET_PHYSICAL_INT64, NULL, CARQUET_REPETITION_REQUIRED, 0) == CARQUET_OK);
   carquet_writer_options_t opt; carquet_writer_options_init(&opt);
   opt.compression = CARQUET_COMPRESSION_UNCOMPRESSED;
-  FILE *f = NULL;
-  carquet_writer_t *w;
-  if (owns) w = carquet_writer_create(path, schema, &opt, &err);
-  else { f = fopen(path, "wb"); CEX_ASSUME(f != NULL); w = carquet_writer_create_file(f, schema, &opt, &err); }
+  carquet_writer_t *w = owns ? carquet_writer_create(path, schema, &opt, &err)
+                             : carquet_writer_create_file(f, schema, &opt, &err);
   CEX_ASSUME(w != NULL);
   int64_t v[16]; for (int i = 0; i < 16; i++) v[i] = i;
   carquet_status_t s1 = carquet_writer_write_batch(w, 0, v, 16, NULL, NULL);
   carquet_status_t s2 = carquet_writer_close(w);
-  int rc = f ? fclose(f) : 0;
-  fprintf(stderr, "sink=%s owns=%d write_batch=%d close=%d caller_fclose=%d\n", path, owns, (int)s1, (int)s2, rc);
   carquet_schema_free(schema);
   return s1 == CARQUET_OK && s2 == CARQUET_OK;
 }
+
 CEX_MAIN {
-  int bad_owned = run(1);
-  int bad_unowned = run(0);
+  int bad_owned = run(1, NULL, "/dev/full");
+  FILE *f = fopen("/dev/full", "wb");
+  CEX_ASSUME(f != NULL);
+  int bad_unowned = run(0, f, NULL);
+  fclose(f);
+  fprintf(stderr, "/dev/full: all-OK with owned stream=%d, with caller's FILE=%d\n", bad_owned, bad_unowned);
   CEX_CHECK(!bad_owned, "path-based writer: every call returned CARQUET_OK although fclose() failed with ENOSPC (no byte stored)");
   CEX_CHECK(!bad_unowned, "FILE-based writer: every call returned CARQUET_OK although fflush() failed with ENOSPC (no byte stored)");
+  for (long k = 0; k < 64; k++) {
+    cookie_io_functions_t io = { NULL, sink_write, NULL, sink_close };
+    FILE *c = fopencookie(NULL, "wb", io);
+    CEX_ASSUME(c != NULL);
+    setvbuf(c, NULL, _IONBF, 0);
+    g_calls = 0; g_fail_at = k; g_failed = 0;
+    int all_ok = run(0, c, NULL);
+    long calls = g_calls, failed = g_failed;
+    fclose(c);
+    if (failed && all_ok) {
+      fprintf(stderr, "one-shot failure of sink write call #%ld (of %ld): every writer call returned CARQUET_OK\n", k, calls);
+      CEX_CHECK(0, "a single failed write to the sink (all later writes succeed) was not reported by any writer call");
+    }
+    if (!failed) break;            /* k is past the last write call */
+  }
 }
